@@ -392,10 +392,10 @@ func (st *c15State) acceptableAuto(fam *c15Family, v int64, sf *big.Rat, exact b
 		}
 	}
 	if noneGE || !any {
+		// which unit of the family is used then is not promised by the property (pprof uses the
+		// family's default unit); the value check still demands the exact magnitude in it
 		for _, u := range fam.units {
-			if u.display == fam.def {
-				acc[u.display] = u.f
-			}
+			acc[u.display] = u.f
 		}
 	}
 	return acc
@@ -449,8 +449,8 @@ func (st *c15State) scaleCase(cs c15Case) bool {
 		c.Violation(sig, fmt.Sprintf("%s = (%v, %q): %s", cs.Text, o.x, o.u, what), cs)
 	}
 
-	var expUnit string  // the unit Go's result is judged against
-	var expR *big.Rat   // exact expected value in that unit
+	var expUnit string // the unit Go's result is judged against
+	var expR *big.Rat  // exact expected value in that unit
 	exact := false
 	if !rf.known {
 		// unknown source unit: factor 1, value unchanged, target string passed through
@@ -484,8 +484,10 @@ func (st *c15State) scaleCase(cs c15Case) bool {
 			} else {
 				mode = "unknown-target"
 			}
-			if du := st.unitByDisplay(fam, fam.def); du != nil {
-				accept[du.display] = du.f
+			// the result must stay in the source's family; which of its units is used for a target
+			// outside the family (pprof: the family's default unit) is not promised by the property
+			for _, u := range fam.units {
+				accept[u.display] = u.f
 			}
 		}
 		c.Res.Hit("target:" + mode)
@@ -501,7 +503,7 @@ func (st *c15State) scaleCase(cs c15Case) bool {
 			switch {
 			case o.x == fv && o.u == c15passUnit(to):
 				viol("C15/sniffUnit/unrecognised-spelling/"+rf.name, fmt.Sprintf("%q is a spelling of the unit name %q (%s) but was treated as an unknown unit; expected unit %s", from, rf.name, rf.display, wantS))
-			case mode == "same-family" && o.u == fam.def:
+			case mode == "same-family" && st.unitByDisplay(fam, o.u) != nil && c15within(o.x, new(big.Rat).Quo(m, st.unitByDisplay(fam, o.u).f), c15tol, nil):
 				viol("C15/sniffUnit/unrecognised-spelling/"+rt.name, fmt.Sprintf("target %q is a spelling of the unit name %q (%s) but was treated as unknown (result given in the default unit)", to, rt.name, rt.display))
 			case mode == "auto" && st.unitByDisplay(fam, o.u) != nil:
 				sig := "C15/scale/auto/unit-not-largest-keeping-magnitude>=1"
@@ -521,10 +523,8 @@ func (st *c15State) scaleCase(cs c15Case) bool {
 				f, _ := expR.Float64()
 				if o.x == fv && o.u == c15passUnit(to) {
 					viol("C15/sniffUnit/unrecognised-spelling/"+rf.name, fmt.Sprintf("%q is a spelling of the unit name %q (%s) but was treated as an unknown unit (value unchanged); expected %s %v", from, rf.name, rf.display, how, f))
-				} else if du := st.unitByDisplay(fam, fam.def); mode == "same-family" && du != nil && o.u == fam.def && c15within(o.x, new(big.Rat).Quo(m, du.f), c15tol, nil) {
-					viol("C15/sniffUnit/unrecognised-spelling/"+rt.name, fmt.Sprintf("target %q is a spelling of the unit name %q (%s) but was treated as unknown (result given in the default unit)", to, rt.name, rt.display))
 				} else {
-				viol("C15/scale/"+mode+"/value", fmt.Sprintf("expected %s %v (value × %s / %s)", how, f, rf.f.RatString(), uf.RatString()))
+					viol("C15/scale/"+mode+"/value", fmt.Sprintf("expected %s %v (value × %s / %s)", how, f, rf.f.RatString(), uf.RatString()))
 				}
 			}
 		}
